@@ -1,7 +1,7 @@
 (* C07 -- scores depend on the data, not on its presentation (symmetry, invariance).  Statements only. *)
 From Coq Require Import List Arith ZArith QArith Bool Permutation.
 From DS Require Import Util.SumQ Spec.Shapley Spec.NNGame Model.Kernel Model.Neighbor
-     Proofs.ShapleyAxioms Proofs.KernelFull Proofs.KernelInvariance.
+     Proofs.ShapleyAxioms Proofs.KernelFull Proofs.KernelInvariance Proofs.LabelRenaming.
 Import ListNotations.
 Local Open Scope Q_scope.
 
@@ -58,18 +58,27 @@ Theorem C07_interchangeable_units : forall n v i j, (i < n)%nat -> (j < n)%nat -
   (forall m, length m = n -> v (swapm i j m) == v m) -> shapley_bf n v i == shapley_bf n v j.
 Proof. exact shapley_symmetric. Qed.
 
-(* Full statement of the label-renaming clause, kept visible: the element-wise NULL vector of the accuracy utility is
-   the indicator of the first class (in sorted order) of minimal constant-predictor accuracy; a renaming may change
-   which of several tied classes that is, which changes the null vector but not its mean.  Proved above: utilities
-   invariant (C07_label_renaming_utilities) and scores insensitive to a common shift (C07_null_shift); the remaining
-   step "scores depend on the null vector only through its sum" is exercised by the correspondence run only. *)
-Definition C07_label_renaming_full_statement : Prop :=
-  forall (g : Z -> Z) n labels owner dist ys nulls nulls' orders p,
-    (forall a b, g a = g b -> a = b) -> length owner = length labels ->
-    sumQ (fun x => x) nulls == sumQ (fun x => x) nulls' ->
-    (forall l, In l orders -> Permutation l (seq 0 n)) ->
-    nth p (neighbor1 n (map g labels) owner dist (map (fun y => acc_col (map g labels) (g y)) ys) nulls' orders) 0
-    == nth p (neighbor1 n labels owner dist (map (acc_col labels) ys) nulls orders) 0.
+(* the scores depend on the null vector only through its sum (any utilities that agree pointwise, any orders that are
+   permutations of the units, one entry per validation point in every list) *)
+Theorem C07_null_vector_only_through_sum : forall n us us' nulls nulls' orders p,
+  Forall2 pointwise_eq us us' -> length us = length nulls -> length nulls' = length nulls -> length orders = length nulls ->
+  sumQ (fun x => x) nulls' == sumQ (fun x => x) nulls ->
+  (forall l, In l orders -> Permutation l (seq 0 n)) ->
+  nth p (kernel n us' nulls' orders) 0 == nth p (kernel n us nulls orders) 0.
+Proof. exact kernel_null_sum. Qed.
+
+(* The label-renaming clause in full: the element-wise NULL vector of the accuracy utility is the indicator of the first
+   class (in sorted order) of minimal constant-predictor accuracy; a renaming may change which of several tied classes
+   that is, which changes the null vector but not its sum.  For every injective renaming g, every ownership, distances,
+   validation labels and orders, and any two null vectors of equal sum, the K=1 neighbor scores are equal. *)
+Theorem C07_label_renaming : forall (g : Z -> Z) n labels owner dist ys nulls nulls' orders p,
+  (forall a b, g a = g b -> a = b) -> length owner = length labels ->
+  length dist = length nulls -> length ys = length nulls -> length nulls' = length nulls -> length orders = length nulls ->
+  sumQ (fun x => x) nulls' == sumQ (fun x => x) nulls ->
+  (forall l, In l orders -> Permutation l (seq 0 n)) ->
+  nth p (neighbor1 n (map g labels) owner dist (map (fun y => acc_col (map g labels) (g y)) ys) nulls' orders) 0
+  == nth p (neighbor1 n labels owner dist (map (acc_col labels) ys) nulls orders) 0.
+Proof. exact label_renaming. Qed.
 
 Print Assumptions C07_validation_permuted.
 Print Assumptions C07_validation_duplicated.
@@ -81,3 +90,5 @@ Print Assumptions C07_batch_loop_general.
 Print Assumptions C07_label_renaming_utilities.
 Print Assumptions C07_null_shift.
 Print Assumptions C07_interchangeable_units.
+Print Assumptions C07_null_vector_only_through_sum.
+Print Assumptions C07_label_renaming.
